@@ -280,18 +280,19 @@ def failing(ev, exp) -> List[str]:
 
 # ---------------------------------------------------------------- TLC plumbing
 def _cfg(path: Path, spec: str, *, maxn=3, maxbases=2, maxacc=0, lists="ListsQuick", attrs="AttrsNone",
-         kinds="KindsBasic", exts="ExtsAll", rel="NoRel", impld="NoDevs", extra="") -> None:
+         kinds="KindsBasic", exts="ExtsAll", rel="NoRel", impld="NoDevs", accattrs="AccAll", accvias="ViasBoth",
+         extra="") -> None:
     path.write_text(
         f"SPECIFICATION {spec}\nCONSTANTS\n  MaxN = {maxn}\n  MaxBases = {maxbases}\n  MaxAcc = {maxacc}\n"
         f"  Lists <- {lists}\n  Attrs <- {attrs}\n  Kinds <- {kinds}\n  Exts <- {exts}\n"
-        f"  RelFiles <- {rel}\n  ImplD <- {impld}\n{extra}")
+        f"  RelFiles <- {rel}\n  ImplD <- {impld}\n  AccAttrs <- {accattrs}\n  AccVias <- {accvias}\n{extra}")
 
 
-def tlc_validate(traces: List[Dict[str, Any]], tag: str, workers: int = 1) -> Dict[int, Dict[str, Any]]:
-    """Batch-validate recorded runs with Trace_C16.  Returns id -> {verdict, event, clauses, known:[...]}."""
-    if not traces:
-        return {}
-    w = workdir("c16tr")
+TLC_PAR = 4          # concurrent single-worker TLC processes for trace batches
+
+
+def _tlc_validate_chunk(args) -> Tuple[Dict[int, Dict[str, Any]], int]:
+    traces, w, tag = args
     f = w / f"{tag}.ndjson"
     tlc.write_ndjson(f, traces)
     cfg = w / f"{tag}.cfg"
@@ -314,8 +315,23 @@ def tlc_validate(traces: List[Dict[str, Any]], tag: str, workers: int = 1) -> Di
                                                   "clauses": m.group(4).strip()})
         elif line.startswith('<<"KNOWN"'):
             raise MachineryError(f"unparsable verdict line: {line}")
-    res["_states"] = r.distinct  # type: ignore[index]
-    return res
+    return res, r.distinct
+
+
+def tlc_validate(traces: List[Dict[str, Any]], tag: str, chunk: int = 500) -> Dict[Any, Any]:
+    """Batch-validate recorded runs with Trace_C16 (several single-worker TLC processes side by
+    side).  Returns id -> {verdict, event, clauses, known:[...]} plus "_states"."""
+    from concurrent.futures import ThreadPoolExecutor
+    out: Dict[Any, Any] = {"_states": 0}
+    if not traces:
+        return out
+    w = workdir("c16tr")
+    jobs = [(traces[k:k + chunk], w, f"{tag}_{k}") for k in range(0, len(traces), chunk)]
+    with ThreadPoolExecutor(max_workers=TLC_PAR) as ex:
+        for res, states in ex.map(_tlc_validate_chunk, jobs):
+            out.update(res)
+            out["_states"] += states
+    return out
 
 
 def judge(chk: Check, pending: List[Dict[str, Any]], tag: str, py_flagged: bool) -> None:
@@ -385,6 +401,35 @@ def plans(fam: str, m: int, idx: int, all_orders: bool) -> List[List[List[Any]]]
     return out
 
 
+REPLAY_PROCS = 4
+
+
+def _replay_chunk(args):
+    """Worker: replay exported hierarchies under their access plans; returns counts and the runs
+    that contradict the exported expectation (to be judged by TLC in the parent)."""
+    fam, quick, seed, items = args
+    pending, counted, samples = [], [], []
+    for idx, cls, rel, exps, m in items:
+        nontrivial = m >= 2 and any(c["media"] == "def" or any(v != "none" for v in c["attr"].values())
+                                    for c in cls)
+        for n, acc in enumerate(plans(fam, max(m, 1), idx, not quick)):
+            forms = seed * 1000003 + idx * 13 + n
+            events = run_real(cls, rel, acc, forms)
+            bad = []
+            for j, ev in enumerate(events):
+                b = failing(ev, exps[ev["c"]])
+                if b:
+                    bad.append([j + 1, b])
+            counted.append((idx, n, nontrivial))
+            if bad:
+                pending.append({"cls": cls, "rel": rel, "accesses": acc, "forms": forms, "events": events,
+                                "py_clauses": bad})
+            elif idx % 4001 == 0 and n == 0:
+                samples.append({"family": fam, "cls": cls, "rel": rel, "accesses": acc,
+                                "observed": [e for e in events if e["op"] == "access"][:3]})
+    return pending, counted, samples
+
+
 def export_and_replay(chk: Check, fam: str, quick: bool, limit: Optional[int] = None) -> None:
     w = workdir("c16mc")
     consts = FAMILIES[fam][0 if quick else 1]
@@ -399,66 +444,88 @@ def export_and_replay(chk: Check, fam: str, quick: bool, limit: Optional[int] = 
     chk.add("transitions", r.generated)
     maxn = consts["maxn"]
     exp_of = {canon(row["cls"]): row["last"] for row in rows}
-    pending: List[Dict[str, Any]] = []
-    runs = 0
+    # a hierarchy that can still be extended is replayed as the prefix of its extensions
     todo = [(i, row) for i, row in enumerate(rows)
             if len(row["cls"]) == maxn or row["last"]["create"] != ["ok"]]
     if limit is not None and len(todo) > limit:
         todo = random.Random(chk.seed * 31 + 16).sample(todo, limit)
+    items = []
     for idx, row in todo:
-        cls, rel = row["cls"], row["rel"]
+        cls = row["cls"]
         exps = {0: ROOT_EXP}
         for k in range(1, len(cls) + 1):
             exps[k] = exp_of[canon(cls[:k])]
         m = len(cls) if row["last"]["create"] == ["ok"] else len(cls) - 1
-        nontrivial = m >= 2 and any(c["media"] == "def" or any(v != "none" for v in c["attr"].values())
-                                    for c in cls)
-        for n, acc in enumerate(plans(fam, max(m, 1), idx, not quick)):
-            forms = chk.seed * 1000003 + idx * 13 + n
-            events = run_real(cls, rel, acc, forms)
-            runs += 1
-            bad = []
-            for j, ev in enumerate(events):
-                b = failing(ev, exps[ev["c"]])
-                if b:
-                    bad.append([j + 1, b])
-            case = {"cls": cls, "rel": rel, "accesses": acc}
-            chk.count(case, nontrivial)
-            if bad:
-                pending.append({"cls": cls, "rel": rel, "accesses": acc, "forms": forms, "events": events,
-                                "py_clauses": bad})
-            elif runs % 5000 == 1:
-                chk.sample({"family": fam, "cls": cls, "rel": rel, "accesses": acc,
-                            "observed": [e for e in events if e["op"] == "access"][:3]}, limit=6)
+        items.append((idx, cls, row["rel"], exps, m))
+    nproc = REPLAY_PROCS if len(items) > 2000 else 1
+    chunks = [(fam, quick, chk.seed, items[k::nproc * 4]) for k in range(nproc * 4)]
+    if nproc > 1:
+        import multiprocessing as mp
+        with mp.get_context("fork").Pool(nproc) as pool:
+            results = pool.map(_replay_chunk, chunks)
+    else:
+        results = [_replay_chunk(c) for c in chunks]
+    pending: List[Dict[str, Any]] = []
+    runs = 0
+    for pend, counted, samples in results:
+        pending += pend
+        runs += len(counted)
+        for idx, n, nontrivial in counted:
+            chk.count([fam, idx, n], nontrivial)
+        for smp in samples:
+            chk.sample(smp, limit=6)
+    pending.sort(key=lambda p: canon([p["cls"], p["accesses"]]))
     chk.add("hierarchies_exported", len(rows))
     chk.add("hierarchies_replayed", len(todo))
     chk.add("runs_replayed", runs)
     chk.add("runs_contradicting_spec", len(pending))
     # python's verdicts are cross-checked and classified by TLC
-    for k in range(0, len(pending), 4000):
-        judge(chk, pending[k:k + 4000], f"explain_{fam}_{k}", py_flagged=True)
+    judge(chk, pending, f"explain_{fam}", py_flagged=True)
 
 
-def model_check_machine(chk: Check, quick: bool) -> None:
-    """The memo machine of MediaInherit on every hierarchy of the catalogue, every access order:
-    OrderIndependent, MemoSound, MemoClosed; and layer B without deviations refines layer A."""
+def model_check_machine(quick: bool) -> Dict[str, Any]:
+    """The memo machine of MediaInherit on every hierarchy of a catalogue, every access order:
+    OrderIndependent, MemoSound, MemoClosed; layer B without deviations refines layer A
+    (ImplRefines); the "inherit" deviation changes file sets only on its named shape; and, as
+    design-level counterexamples, layer B WITH each named deviation does not refine layer A.
+    Pure TLC work (runs beside the replays); returns the numbers for the evidence."""
+    from concurrent.futures import ThreadPoolExecutor
     w = workdir("c16mm")
-    cfg = w / "machine.cfg"
-    _cfg(cfg, "MCSpec", maxn=2 if quick else 3, maxacc=3 if quick else 3, lists="ListsQuick", kinds="KindsBasic",
-         attrs="AttrsFew" if quick else "AttrsNone", impld="NoDevs",
-         extra="INVARIANT OrderIndependent\nINVARIANT MemoSound\nINVARIANT MemoClosed\nINVARIANT ImplRefines\n"
-               "INVARIANT InheritOnlyOnShape\n")
-    r = tlc.require_ok(tlc.run("MC_C16", str(cfg), workers=4), "MC_C16 memo machine")
-    chk.add("states", r.distinct)
-    chk.add("transitions", r.generated)
-    chk.add("machine_states", r.distinct)
-    # design-level counterexamples: with the named deviations layer B must NOT refine layer A
-    for dev in ("DevInherit", "DevFlatten"):
-        cfg = w / f"machine_{dev}.cfg"
-        _cfg(cfg, "MCSpec", maxn=3, maxacc=1, lists="ListsQuick", kinds="KindsBasic", impld=dev,
-             extra="INVARIANT ImplRefines\n")
-        r = tlc.run("MC_C16", str(cfg), workers=4)
-        chk.cov.setdefault("design_level_counterexamples", {})[dev] = bool(r.violated)
+    inv = ("INVARIANT OrderIndependent\nINVARIANT MemoSound\nINVARIANT MemoClosed\nINVARIANT ImplRefines\n"
+           "INVARIANT InheritOnlyOnShape\n")
+    jobs = {
+        # two classes, every attribute, classes and instances
+        "machine2": dict(maxn=2, maxacc=2, lists="ListsQuick", attrs="AttrsNone" if quick else "AttrsFew",
+                         extra=inv),
+        # three classes (multiple inheritance, extend lists), media only
+        "machine3": dict(maxn=3, maxacc=2, lists="ListsTiny" if quick else "ListsQuick", accattrs="AccMedia",
+                         accvias="ViasCls", extra=inv),
+        "dev_inherit": dict(maxn=3, maxacc=1, lists="ListsTiny", accattrs="AccMedia", accvias="ViasCls",
+                            impld="DevInherit", extra="INVARIANT ImplRefines\n"),
+        "dev_flatten": dict(maxn=3, maxacc=1, lists="ListsQuick", accattrs="AccMedia", accvias="ViasCls",
+                            impld="DevFlatten", extra="INVARIANT ImplRefines\n"),
+        "dev_lazy": dict(maxn=1, maxacc=2, lists="ListsRel", rel="Rel1", accattrs="AccMediaJs", accvias="ViasCls",
+                         impld="DevLazy", extra="INVARIANT ImplRefines\n"),
+    }
+
+    def one(item):
+        name, consts = item
+        cfg = w / f"{name}.cfg"
+        _cfg(cfg, "MCSpec", **consts)
+        return name, tlc.run("MC_C16", str(cfg), workers=2 if quick else 4)
+    out: Dict[str, Any] = {"states": 0, "transitions": 0, "design_level_counterexamples": {}}
+    with ThreadPoolExecutor(max_workers=3) as ex:
+        for name, r in ex.map(one, jobs.items()):
+            if name.startswith("machine"):
+                tlc.require_ok(r, f"MC_C16 {name}")
+                out["states"] += r.distinct
+                out["transitions"] += r.generated
+                out[name + "_states"] = r.distinct
+            else:
+                if not r.violated and not r.ok:
+                    tlc.require_ok(r, f"MC_C16 {name}")
+                out["design_level_counterexamples"][name] = "ImplRefines" in r.violated
+    return out
 
 
 # ---------------------------------------------------------------- code -> spec
@@ -511,18 +578,25 @@ def random_traces(chk: Check, ntraces: int) -> None:
         chk.count({"cls": cls, "rel": rel, "accesses": acc})
         if n < 3:
             chk.sample({"random_run": {"cls": cls, "rel": rel, "events": events[-2:]}}, limit=9)
-    for k in range(0, len(pending), 2500):
-        judge(chk, pending[k:k + 2500], f"random_{k}", py_flagged=False)
+    judge(chk, pending, "random", py_flagged=False)
     chk.add("traces_validated_against_impl", len(pending))
 
 
 # ---------------------------------------------------------------- entry points
 def _body(chk: Check, quick: bool, small: bool = False) -> None:
+    from concurrent.futures import ThreadPoolExecutor
     world()
-    model_check_machine(chk, quick)
-    for fam in FAMILIES:
-        export_and_replay(chk, fam, quick, limit=1500 if small else None)
-    random_traces(chk, 150 if small else (1500 if quick else 15000))
+    with ThreadPoolExecutor(max_workers=1) as ex:
+        fut = None if small else ex.submit(model_check_machine, quick)   # TLC only; runs beside the replays
+        for fam in FAMILIES:
+            export_and_replay(chk, fam, quick, limit=600 if small else None)
+        random_traces(chk, 120 if small else (1500 if quick else 15000))
+        if fut is not None:
+            for k, v in fut.result().items():
+                if isinstance(v, int):
+                    chk.add(k, v)
+                else:
+                    chk.cov[k] = v
 
 
 def run(tier: str) -> int:
